@@ -1,6 +1,7 @@
 //! Verification harness: runs the real implementation (path dependency on /repo)
 //! and prints canonical observations. One sub-command per engine.
 mod ast;
+mod interp;
 mod frags;
 mod lift;
 mod ext;
@@ -26,6 +27,7 @@ fn main() {
     match args[1].as_str() {
         "tables" => tables::run(&args[2..]),
         "sat" => sat::run(&args[2..]),
+        "interp" => interp::run(&args[2..]),
         "frags" => frags::run(&args[2..]),
         "tap" => tap::run(&args[2..]),
         "desc" => desc::run(&args[2..]),
